@@ -1,9 +1,177 @@
 import Pandora.Drv.Util
+import Pandora.Model.C09
+import Pandora.Spec.C09
 
+/-
+Line driver of C09: input line (harness/cmd/c09) ↦ the model's prediction of what the recording target saw and
+the Spec's verdict on what it really saw.
+-/
 namespace Pandora.Drv.C09
-open Pandora.Drv
+open Pandora.Drv Pandora.Model.C09 Pandora.Spec.C09
 
-/-- stub: replaced when the property's model driver is written -/
-def handle : Handler := fun _ _ => ("-", "skip:not-built")
+def unhex (s : String) : Option Str := (parseHex s).map fun bs => bs.map UInt8.toNat
+
+def hex (s : Str) : String := toHex (s.map UInt8.ofNat)
+
+structure Case where
+  f : Format
+  ssl : Bool
+  srvTls : Bool
+  ka : Bool
+  inst : Nat
+  tgt : String
+  passes : Nat
+  conf : List Str
+  items : List Item
+
+def parseFormat : String → Option Format
+  | "uri" => some .uri
+  | "uripost" => some .uripost
+  | "jsonline" => some .jsonline
+  | "jsonarr" => some .jsonarr
+  | "raw" => some .raw
+  | _ => none
+
+def parseHdr (s : String) : Option (Str × Str) :=
+  match s.splitOn ":" with
+  | [k, v] => do pure ((← unhex k), (← unhex v))
+  | _ => none
+
+def parseItem (s : String) : Option Item :=
+  match s.splitOn "," with
+  | [m, u, h, hs, b] => do
+    let hdrs ← (splitList hs ";").mapM parseHdr
+    pure { hdrs := hdrs, ent := { method := ← unhex m, uri := ← unhex u, host := ← unhex h, body := ← unhex b } }
+  | _ => none
+
+def parseCase (kv : List (String × String)) : Option Case := do
+  let f ← parseFormat (getS kv "fmt")
+  let inst ← getN? kv "inst"
+  let passes ← getN? kv "passes"
+  let conf ← (splitList (getS kv "conf") ";").mapM unhex
+  let items ← (splitList (getS kv "ents") "|").mapM parseItem
+  if inst = 0 ∨ passes = 0 ∨ items = [] then none
+  pure { f := f, ssl := getS kv "ssl" == "1", srvTls := getS kv "srv" == "tls", ka := getS kv "ka" == "1",
+         inst := inst, tgt := getS kv "tgt", passes := passes, conf := conf, items := items }
+
+def parseRecHdr (s : String) : Option (Str × List Str) :=
+  match s.splitOn ":" with
+  | k :: vs => do pure ((← unhex k), (← vs.mapM unhex))
+  | [] => none
+
+def parseRec (s : String) : Option Rec :=
+  match s.splitOn "," with
+  | [m, u, h, t, hs, b] => do
+    pure { method := ← unhex m, uri := ← unhex u, host := ← unhex h, tls := t == "1",
+           header := ← (splitList hs ";").mapM parseRecHdr, body := ← unhex b }
+  | _ => none
+
+def parseObs (kv : List (String × String)) : Option Obs := do
+  pure { n := ← getN? kv "n", shots := ← getN? kv "shots", conns := ← getN? kv "conns",
+         runOk := getS kv "run" == "ok", reqs := ← (splitList (getS kv "reqs") "|").mapM parseRec }
+
+/-! ### rendering of the model's prediction -/
+
+def ltStr : Str → Str → Bool
+  | [], [] => false
+  | [], _ :: _ => true
+  | _ :: _, [] => false
+  | a :: as, b :: bs => if a < b then true else if b < a then false else ltStr as bs
+
+def insertSorted (x : Str × List Str) : Hdr → Hdr
+  | [] => [x]
+  | y :: ys => if ltStr x.1 y.1 then x :: y :: ys else y :: insertSorted x ys
+
+def sortHdr (h : Hdr) : Hdr := h.foldl (fun acc x => insertSorted x acc) []
+
+def renderShot (s : Shot) : String :=
+  let hs := (sortHdr (arrivedHeader s.header)).map fun kv => String.intercalate ":" (hex kv.1 :: kv.2.map hex)
+  String.intercalate "," [hex s.method, hex s.uri, hex s.host, (if s.scheme = .https then "1" else "0"),
+    String.intercalate ";" hs, hex s.body]
+
+/-! ### scope of the Spec -/
+
+def tokenName (k : Str) : Bool := k != [] && k.all isTokenByte
+def cleanValue (v : Str) : Bool := v.all validValueByte
+
+def uriInGrammar (f : Format) (u : Str) : Bool :=
+  match f with
+  | .jsonline | .jsonarr => u.head? == some 47
+  | _ => u.head? == some 47 || (stripPrefix? (str "http://") u).isSome || (stripPrefix? (str "https://") u).isSome
+
+/-- decoded header lines of one item (uri/uripost lines go through DecodeHeader; the others are taken as given) -/
+def decodedLines (f : Format) (hdrs : List (Str × Str)) : Option (List (Str × Str)) :=
+  match f with
+  | .uri | .uripost => hdrs.mapM fun kv => match decodeHeader (headerLine kv) with
+    | .ok p => some p
+    | .error _ => none
+  | .raw => some (hdrs.map fun kv => (kv.1, trimHTTP kv.2))
+  | _ => some hdrs
+
+def distinctCanon : List Str → Bool
+  | [] => true
+  | k :: ks => !(ks.any fun k' => canon k' = canon k) && distinctCanon ks
+
+/-- expectations of one pass; `none` = outside the scope of the Spec (malformed on purpose) -/
+def wantsOfPass (c : Case) (conf : List (Str × Str)) (t : Str) : List Item → List (Str × Str) → Option (List Want)
+  | [], _ => some []
+  | it :: rest, acc => do
+    let ls ← decodedLines c.f it.hdrs
+    let eff := match c.f with
+      | .uri | .uripost => acc ++ ls
+      | _ => ls
+    if !(ls.all fun kv => tokenName kv.1 && cleanValue kv.2) then none
+    if !validMethod it.ent.method ∨ it.ent.method = [] then none
+    if !uriInGrammar c.f it.ent.uri then none
+    if (c.f = .jsonline ∨ c.f = .jsonarr) ∧ !distinctCanon (ls.map (·.1)) then none
+    if c.f = .raw ∧ (valsOf ls hostKey).length > 1 then none
+    let ws ← wantsOfPass c conf t rest eff
+    pure ({ f := c.f, conf := conf, lines := eff, e := it.ent, targetHost := t, ssl := c.ssl } :: ws)
+
+def repeatList {α} (l : List α) : Nat → List α
+  | 0 => []
+  | n + 1 => l ++ repeatList l n
+
+def targetOf (tgt : String) : Str :=
+  if tgt == "::1" then str "[::1]:0" else str (tgt ++ ":0")
+
+def handleRun (c : Case) (impl : String) : String × String :=
+  if impl.startsWith "ENV" then ("-", "skip:env")
+  else if impl.startsWith "BAD-INPUT" then ("-", "skip:bad-input")
+  else
+  match decodeAll c.conf with
+  | .error _ => ("provider-err", "skip:malformed-option")
+  | .ok conf =>
+    let confH := confHdr conf
+    let g : Gun := { ssl := c.ssl, target := targetOf c.tgt, targetResolved := targetOf c.tgt }
+    let (reqs, st) := scanAll c.f confH c.items c.passes
+    if st = .panic then ("PANIC model", "fail:panic:model predicts a panic in EnrichRequestWithHeaders") else
+    if c.f = .jsonarr ∧ st = .err then ("-", "skip:array-construct-error") else
+    let shots := reqs.map (shoot g)
+    let arrived := shots.map fun s => sendable s && (c.srvTls == c.ssl)
+    let arrivedShots := (shots.zip arrived).filterMap fun p => if p.2 then some p.1 else none
+    let model := s!"n={arrivedShots.length} shots={shots.length} conns={connsOf c.ka c.inst arrived} run={if st = .ok then "ok" else "err"} reqs={String.intercalate "|" (arrivedShots.map renderShot)}"
+    let verdict :=
+      if confH.any (fun kv => !tokenName kv.1 || !kv.2.all cleanValue) then "skip:malformed-option" else
+      match wantsOfPass c conf (hostWithoutPort g.target) c.items [] with
+      | none => "skip:malformed-entry"
+      | some ws =>
+        match parseObs (parseKV impl) with
+        | none => s!"fail:crash:{impl.take 120}"
+        | some o => judge (repeatList ws c.passes) (c.srvTls == c.ssl) c.ka c.inst o
+    (model, verdict)
+
+def handle : Handler := fun input impl =>
+  let kv := parseKV input
+  match getS kv "kind" with
+  | "canon" =>
+    match unhex (getS kv "key") with
+    | some k => ("canon=" ++ hex (canon k), "ok")
+    | none => ("-", "fail:driver:bad hex")
+  | "run" =>
+    match parseCase kv with
+    | some c => handleRun c impl
+    | none => ("-", "fail:driver:unparsable input")
+  | _ => ("-", "fail:driver:unknown kind")
 
 end Pandora.Drv.C09
